@@ -250,7 +250,7 @@ func TestC15Exhaustive(t *testing.T) {
 var splitPieces = []string{
 	";", ";", ";;", " ; ", "T", "T | count", "let x = 1", "let s = 'a;b'", "T | where a == \"x;\"", "T | where `a;b` > 1", "// c;\n", "// c;", "T // c\n| take 1",
 	"'", "\"", "`", "'a", "`a", "\\", "'\\'", "1e", "0x", "1.", ".", "<", "=", "!", "/", "-", "T | take 1e", "T | where a <", "T | where a =", "T | where a !",
-	"\n", " ", "T|join (U) on k", "(", ")", "[", "]", "x", "0", "é", "\xff",
+	"\n", " ", "T|join (U) on k", "(", ")", "[", "]", "x", "0", "é", "\xff", "\ufeff", "\u00a0", "\r",
 }
 
 func genSplitString(t *rapid.T) string {
